@@ -64,6 +64,15 @@ var commonAssume = []string{
 }
 
 var props = map[string]*propCfg{
+	"C04": {
+		Title:    "line splitting is exact and returned buffers are never overwritten",
+		Quick:    tierCfg{Runs: 25000, Chunk: 800, DetRuns: 48, ShrinkSec: 30},
+		Thorough: tierCfg{Runs: 1250000, Chunk: 20000, DetRuns: 256, ShrinkSec: 120},
+		Rule: "one evaluation = one scanner case: a byte string (length 0-200 over alphabets dense in \\n and \\r) scanned by readahead.NewImmediate (buffer 1-64 or 128KiB) or NewBuffered (2-64) through a scripted reader whose Read results (chunk size, (0,nil) stalls, data-with-EOF, and in odd-indexed runs one injected non-EOF error with or without data) are drawn from the tape; 16 cases per run index; " +
+			"distinct_nontrivial = distinct hashes of (scanner kind, buffer size, content, read script) among cases where at least one chunk boundary fell inside a line",
+		Real:  []string{"pkg/readahead"},
+		Stubs: []string{"the io.Reader under the scanner (scripted: chunking, stalls, EOF forms, injected error)"},
+	},
 	"C01": {
 		Title:    "every line read once, classified once",
 		Quick:    tierCfg{Runs: 8000, Chunk: 250, DetRuns: 48, ShrinkSec: 60},
@@ -247,6 +256,8 @@ type runResult struct {
 	Nontrivial bool             `json:"nontrivial"`
 	WallMicros int64            `json:"wall_us"`
 	DetHash    string           `json:"det"`
+	Cases      int              `json:"cases"`
+	CaseHashes []string         `json:"case_hashes"`
 }
 
 type job struct {
@@ -776,7 +787,7 @@ func writeRaceReplay(path, prop string, base uint64, tier string, r *runResult, 
 func writeEvidence(prop string, cfg *propCfg, tier string, seed uint64, tc tierCfg, b *build, main, det, race []runResult, nViol int, wall float64, knownLines []string) {
 	distinct := map[string]bool{}
 	allHashes := map[string]bool{}
-	var steps, multi, bubbles int64
+	var steps, multi, bubbles, cases int64
 	var simNs int64
 	probes := map[string]int64{}
 	fired := map[string]int64{}
@@ -786,8 +797,17 @@ func writeEvidence(prop string, cfg *propCfg, tier string, seed uint64, tc tierC
 	var wallUs int64
 	for _, r := range main {
 		allHashes[r.Hash] = true
-		if r.Nontrivial {
+		if len(r.CaseHashes) > 0 {
+			for _, h := range r.CaseHashes {
+				distinct[h] = true
+			}
+		} else if r.Nontrivial {
 			distinct[r.Hash] = true
+		}
+		if r.Cases > 0 {
+			cases += int64(r.Cases)
+		} else {
+			cases++
 		}
 		steps += int64(r.Steps)
 		multi += int64(r.Multi)
@@ -835,7 +855,7 @@ func writeEvidence(prop string, cfg *propCfg, tier string, seed uint64, tc tierC
 		"violations":  nViol,
 		"assumptions": append(append([]string{}, commonAssume...), cfg.Assume...),
 		"coverage": map[string]any{
-			"evaluations":                   len(main) + len(race),
+			"evaluations":                   int(cases) + len(race),
 			"distinct_nontrivial":           len(distinct),
 			"rule":                          cfg.Rule,
 			"samples":                       samples,
